@@ -5,6 +5,7 @@ mod dump;
 mod gen;
 mod json;
 mod rng;
+mod serde_rec;
 mod sexpr;
 mod store_ops;
 mod suites;
